@@ -62,6 +62,13 @@ PROPS = {
                     'CartesianProduct/Fold/Scan/Merge/Count/Extremum, SeqAndMappedFoldBuiltin, the one-liners registered in initialize, and the '
                     'combinatorial streams; user callbacks are an uninterpreted function of (callee, arguments), effects not modelled',
     ),
+    'C15': dict(
+        units=['lexnum'],
+        not_covered='everything of the lexer and parser except the two integer-literal kernels: Lexer::lex (token dispatch, decimal / float / rational / imaginary '
+                    'literals, 0x/0b/0o and NrDIGITS prefixes that select the radix), string escapes, format strings, the recursive-descent parser (totality), '
+                    'literal evaluation; the assumed contracts of Lexer::peek/next/emit (Peekable<Chars>, Vec::push); termination of the two loops '
+                    '(each iteration consumes a character of a finite text; not proved because the lexer state is opaque)',
+    ),
     'C10': dict(
         units=['index', 'streamdef', 'rangeu', 'objctors'], kani='thorough',
         not_covered='set_index, the take/drop/... builtins that call these kernels, Stream::pythonic_slice, overrides of the stream methods other than Cycle\'s',
@@ -117,6 +124,10 @@ TEXT = {
             'order; grouped = consecutive chunks of n with group\' refusing a leftover; take_while_inner = the longest prefix whose elements '
             'all pass, the next element having been tested and failed; filtered = exactly the elements whose test differs from neg, order '
             'kept (filter / reject); an erroring item or callback is raised. Only these helpers are decided by proof.'),
+    'C15': ('Verus proves the two integer-literal kernels of the lexer against positional notation: lex_base_and_emit (behind NrDIGITS, 0x, 0b, 0o) consumes '
+            'exactly the longest run of digits below the radix and emits one IntLit whose value is the positional value of that run, for every radix 2..36 and '
+            'every length; lex_base_64_and_emit does the same for 64r literals (A-Z a-z 0-9 +- /_). Only these kernels are decided by proof; totality of '
+            'parse and every other literal form are covered by the bounded stand-in only.'),
     'C12': ('Verus proves the type-predicate kernel: is_type(type_of(v), v) and is_type(anything, v) hold for every value, '
             'number accepts every numeric level, and builtin types classify by constructor; and struct construction (call_type): the '
             'result is an instance of that struct holding the arguments followed by the defaults of the remaining fields, Ok exactly when '
